@@ -26,9 +26,10 @@ func NewQueryAuthorizer(c *Client) *QueryAuthorizer {
 func (a *QueryAuthorizer) AuthorizeQuery(u User, q *influxql.Query, database string) (query.FineAuthorizer, error) {
 	// Special case if no users exist.
 	if n := a.Client.UserCount(); n == 0 {
-		// Ensure there is at least one statement.
-		if len(q.Statements) > 0 {
-			// First statement in the query must create a user with admin privilege.
+		// The query must consist of exactly one statement: anything after it
+		// would run without any credentials at all.
+		if len(q.Statements) == 1 {
+			// The statement must create a user with admin privilege.
 			cu, ok := q.Statements[0].(*influxql.CreateUserStatement)
 			if ok && cu.Admin {
 				return query.OpenAuthorizer, nil
